@@ -1,0 +1,240 @@
+//go:build verif
+
+// Contracts for package parse, checked by /verif/govc (comment-only file; it
+// does not exist for the compiler unless the "verif" tag is set, and even then
+// contributes no code).
+package parse
+
+// ---------------------------------------------------------------------------
+// Lexer (C05: every state function terminates, makes progress and cannot
+// panic; the scanner runs on its own goroutine, so a runtime panic there is a
+// process crash, not an error value).
+
+//@ pred lexerOK(l *lexer) = 0 <= l.start && l.start <= l.pos && l.pos <= len(l.input) && 0 <= l.width && l.width <= 4
+
+// ghost ranking of state functions: a state that hands over without consuming
+// input must hand over to a state of strictly smaller rank.
+//@ specfn rank(f stateFn) int
+//@ specfn needsChar(f stateFn) bool
+//@ axiom rank(lexRightDelim) == 6 && rank(lexRightDelimEnd) == 6 && rank(lexCss) == 6 && rank(lexLiteral) == 6
+//@ axiom rank(lexText) == 5 && rank(lexLeftDelim) == 4 && rank(lexBeginTag) == 3 && rank(lexInsideTag) == 2
+//@ axiom rank(lexIdent) == 1 && rank(lexNumber) == 1 && rank(lexHeaderParam) == 1 && rank(fn("stringLexer$1")) == 1
+//@ axiom needsChar(lexIdent) && needsChar(lexLeftDelim)
+//@ axiom !needsChar(lexRightDelim) && !needsChar(lexRightDelimEnd) && !needsChar(lexCss) && !needsChar(lexLiteral) && !needsChar(lexText) && !needsChar(lexBeginTag) && !needsChar(lexInsideTag) && !needsChar(lexNumber) && !needsChar(lexHeaderParam) && !needsChar(fn("stringLexer$1"))
+
+//@ functype stateFn
+//@   params l
+//@   props C05
+//@   requires lexerOK(l)
+//@   requires needsChar(self) ==> l.pos < len(l.input)
+//@   modifies l.pos, l.start, l.width, l.lastEmit, l.doubleDelim
+//@   ensures[ok] result != nil ==> lexerOK(l)
+//@   ensures[progress] result == nil || l.pos > old(l.pos) || (l.pos == old(l.pos) && rank(result) < rank(self))
+//@   ensures[next-pre] result != nil && needsChar(result) ==> l.pos < len(l.input)
+//@   ensures[rank-bound] result != nil ==> 1 <= rank(result) && rank(result) <= 6
+
+//@ func (*lexer).run
+//@   props C05
+//@   requires lexerOK(l)
+//@   requires l.state != nil ==> 1 <= rank(l.state) && rank(l.state) <= 6
+//@   requires l.state != nil && needsChar(l.state) ==> l.pos < len(l.input)
+//@   loop 0
+//@     invariant l.state != nil ==> lexerOK(l) && 1 <= rank(l.state) && rank(l.state) <= 6
+//@     invariant l.state != nil && needsChar(l.state) ==> l.pos < len(l.input)
+//@     decreases ite(l.state == nil, -1, len(l.input) - l.pos), ite(l.state == nil, 0, rank(l.state))
+
+//@ func (*lexer).next
+//@   props C05
+//@   requires 0 <= l.pos
+//@   modifies l.pos, l.width
+//@   ensures old(l.pos) >= len(l.input) ==> result == eof && l.width == 0 && l.pos == old(l.pos)
+//@   ensures old(l.pos) < len(l.input) ==> result >= 0 && 1 <= l.width && l.width <= 4 && l.pos == old(l.pos) + l.width && l.pos <= len(l.input)
+//@   ensures old(l.pos) < len(l.input) && l.input[old(l.pos)] < 128 ==> result == l.input[old(l.pos)] && l.width == 1
+//@   ensures old(l.pos) < len(l.input) && l.input[old(l.pos)] >= 128 ==> result >= 128
+
+//@ func (*lexer).peek
+//@   props C05
+//@   requires 0 <= l.pos
+//@   modifies l.pos, l.width
+//@   ensures l.pos == old(l.pos)
+//@   ensures 0 <= l.width && l.width <= 4 && (old(l.pos) <= len(l.input) ==> l.pos + l.width <= len(l.input))
+//@   ensures old(l.pos) >= len(l.input) ==> result == eof && l.width == 0
+//@   ensures old(l.pos) < len(l.input) ==> result >= 0 && l.width >= 1
+//@   ensures old(l.pos) < len(l.input) && l.input[old(l.pos)] < 128 ==> result == l.input[old(l.pos)] && l.width == 1
+//@   ensures old(l.pos) < len(l.input) && l.input[old(l.pos)] >= 128 ==> result >= 128
+
+//@ func (*lexer).backup
+//@   props C05
+//@   modifies l.pos
+//@   ensures l.pos == old(l.pos) - l.width
+
+//@ func (*lexer).ignore
+//@   props C05
+//@   modifies l.start
+//@   ensures l.start == l.pos
+
+//@ func (*lexer).emit
+//@   props C05
+//@   requires 0 <= l.start && l.start <= l.pos && l.start <= len(l.input)
+//@   modifies l.pos, l.start, l.lastEmit
+//@   ensures l.pos == ite(old(l.pos) > len(l.input), len(l.input), old(l.pos))
+//@   ensures l.start == l.pos
+//@   ensures l.lastEmit.typ == t && len(l.lastEmit.val) == l.pos - old(l.start)
+
+//@ func (*lexer).errorf
+//@   props C05
+//@   ensures result == nil
+
+//@ func (*lexer).accept
+//@   props C05
+//@   requires 0 <= l.pos && l.pos <= len(l.input)
+//@   modifies l.pos, l.width
+//@   ensures result ==> l.pos > old(l.pos) && l.pos <= len(l.input) && 1 <= l.width && l.width <= 4 && l.pos == old(l.pos) + l.width
+//@   ensures !result ==> l.pos == old(l.pos) && 0 <= l.width && l.width <= 4
+
+//@ func (*lexer).acceptRun
+//@   props C05
+//@   requires 0 <= l.pos && l.pos <= len(l.input)
+//@   modifies l.pos, l.width
+//@   ensures l.pos >= old(l.pos) && l.pos <= len(l.input) && result == (l.pos > old(l.pos)) && 0 <= l.width && l.width <= 4
+//@   loop 0
+//@     invariant pos <= l.pos && l.pos <= len(l.input) && pos == old(l.pos)
+//@     decreases len(l.input) - l.pos
+
+//@ func (*lexer).lineNumber
+//@   props C05 C19
+//@   requires 0 <= pos && pos <= len(l.input)
+//@   ensures result >= 1 && result <= 1 + pos
+
+//@ func (*lexer).columnNumber
+//@   props C05 C19
+//@   requires 0 <= pos && pos <= len(l.input)
+//@   ensures result >= 0 && result <= pos
+
+//@ func maybeEmitText
+//@   props C05
+//@   requires lexerOK(l) && 0 <= backup && backup <= 3
+//@   modifies l.pos, l.start, l.lastEmit
+//@   ensures l.pos == old(l.pos) && l.start == ite(l.pos - backup > old(l.start), l.pos - backup, old(l.start))
+
+//@ func allSpaceWithNewline
+//@   props C05
+
+//@ func skipSpace
+//@   props C05
+//@   requires lexerOK(l)
+//@   modifies l.pos, l.width, l.start
+//@   ensures lexerOK(l) && l.pos >= old(l.pos) && l.start == l.pos
+//@   loop 0
+//@     invariant old(l.pos) <= l.pos && l.pos <= len(l.input) && 0 <= l.width && l.width <= 4 && l.width <= l.pos - old(l.pos) && (ch == eof ==> l.width == 0) && l.start == old(l.start)
+//@     decreases len(l.input) - l.pos, ite(ch == eof, 0, 1)
+
+//@ func lexText
+//@   like stateFn
+//@   loop 0
+//@     invariant lexerOK(l) && l.pos >= old(l.pos) && l.start == old(l.start) && (r != 0 ==> l.pos > old(l.pos))
+//@     decreases len(l.input) - l.pos
+
+//@ func lexLeftDelim
+//@   like stateFn
+
+//@ func lexRightDelim
+//@   like stateFn
+
+//@ func lexRightDelimEnd
+//@   like stateFn
+
+//@ func lexBeginTag
+//@   like stateFn
+
+//@ func lexInsideTag
+//@   like stateFn
+
+//@ func lexNegative
+//@   props C05
+//@   requires lexerOK(l) && l.pos - 1 >= l.start
+//@   modifies l.pos, l.start, l.width, l.lastEmit
+//@   ensures lexerOK(l) && result != nil
+//@   ensures (l.pos == old(l.pos) && result != lexNumber) || (l.pos == old(l.pos) - 1 && result == lexNumber)
+//@   ensures result == lexNumber || result == lexInsideTag
+
+//@ func lexSoyDoc
+//@   props C05
+//@   requires lexerOK(l)
+//@   modifies l.pos, l.start, l.width, l.lastEmit
+//@   ensures result != nil ==> lexerOK(l) && l.pos > old(l.pos) && result == lexText
+//@   loop 0
+//@     invariant lexerOK(l) && l.pos >= old(l.pos)
+//@     decreases len(l.input) - l.pos, ite(startOfLine, 1, 0)
+
+//@ func lexSoyDocParam
+//@   props C05
+//@   requires lexerOK(l) && l.start == l.pos && l.pos + 6 <= len(l.input)
+//@   modifies l.pos, l.start, l.width, l.lastEmit
+//@   ensures lexerOK(l) && l.pos >= old(l.pos)
+//@   loop 0
+//@     invariant lexerOK(l) && l.pos >= old(l.pos) + 6
+//@     decreases len(l.input) - l.pos
+//@   loop 1
+//@     invariant lexerOK(l) && l.pos >= old(l.pos) + 6
+//@     decreases len(l.input) - l.pos
+
+//@ func lexLineComment
+//@   props C05
+//@   requires lexerOK(l)
+//@   modifies l.pos, l.start, l.width, l.lastEmit
+//@   ensures lexerOK(l) && l.pos >= old(l.pos) && result == lexText
+//@   loop 0
+//@     invariant lexerOK(l) && l.pos >= old(l.pos)
+//@     decreases len(l.input) - l.pos
+
+//@ func lexBlockComment
+//@   props C05
+//@   requires lexerOK(l)
+//@   modifies l.pos, l.start, l.width, l.lastEmit
+//@   ensures result != nil ==> lexerOK(l) && l.pos > old(l.pos) && result == lexText
+//@   loop 0
+//@     invariant lexerOK(l) && l.pos >= old(l.pos)
+//@     decreases len(l.input) - l.pos
+
+//@ func stringLexer$1
+//@   like stateFn
+//@   loop 0
+//@     invariant lexerOK(l) && l.pos >= old(l.pos)
+//@     decreases len(l.input) - l.pos
+
+//@ func lexIdent
+//@   like stateFn
+//@   loop 0
+//@     invariant lexerOK(l) && l.pos > old(l.pos)
+//@     decreases len(l.input) - l.pos, ite(l.width == 0, 0, 1)
+
+//@ func lexHeaderParam
+//@   like stateFn
+//@   loop 0
+//@     invariant lexerOK(l) && l.pos > old(l.pos)
+//@     decreases len(l.input) - l.pos, ite(l.width == 0, 0, 1)
+//@   loop 1
+//@     invariant lexerOK(l) && l.pos > old(l.pos) && l.start <= lastNonSpace && lastNonSpace <= l.pos
+//@     decreases len(l.input) - l.pos
+
+//@ func lexCss
+//@   like stateFn
+//@   loop 0
+//@     invariant lexerOK(l) && l.pos >= old(l.pos)
+//@     decreases len(l.input) - l.pos
+
+//@ func lexLiteral
+//@   like stateFn
+//@   loop 0
+//@     invariant lexerOK(l) && l.pos >= old(l.pos) && (ch == eof ==> l.width == 0)
+//@     decreases len(l.input) - l.pos, ite(ch == eof, 0, 1)
+
+//@ func lexNumber
+//@   like stateFn
+
+//@ func scanNumber
+//@   props C05
+//@   requires lexerOK(l)
+//@   modifies l.pos, l.width
+//@   ensures lexerOK(l) && l.pos >= old(l.pos) && (ok ==> l.pos > old(l.pos))
